@@ -59,6 +59,11 @@ def _contexts():
         "inline-in-inline-multi": lambda s: g(span(span(s, "t"), "!")),
         "inline-in-inline-in-block": lambda s: g(div(span(span("a", s)), "z")),
         "custom-eol": lambda s: div("q", span(span(s))).get_html_string(1, "\r\n"),
+        # an ORDINARY element that sits inside <script>/<style> (a text/template script, an svg <style>): only text
+        # placed directly in script/style is raw, the text of the nested element is text like any other
+        "element-inside-script": lambda s: g(Tag("script", div(s), type="text/template")),
+        "element-inside-script-multi": lambda s: g(Tag("script", "raw<", span("y"), div(s, "z"))),
+        "element-deep-inside-style": lambda s: g(Tag("style", span(span(s)))),
     }
 
 
